@@ -4,6 +4,7 @@ package main
 // their obligations, matches known findings, replays counterexamples, writes evidence.
 
 import (
+	"regexp"
 	"os/exec"
 	"encoding/json"
 	"go/types"
@@ -260,7 +261,7 @@ func fileSafe(s string) string {
 
 // liveKinds: contract-level obligations for which at least one path instance must have
 // satisfiable assumptions (a clause proved only on infeasible paths is vacuous).
-var liveKinds = map[string]bool{"ensures": true, "iter": true}
+var liveKinds = map[string]bool{"ensures": true, "iter": true, "inv": true}
 
 type KnownFinding struct {
 	Prop, Obligation, Class, Text string
@@ -311,7 +312,9 @@ func loadKnownFindings(path string) []KnownFinding {
 // contractLevel: obligation kinds recorded in the ledger (their disappearance is a failure).
 func contractLevel(kind string) bool {
 	switch kind {
-	case "ensures", "inv", "variant", "frame", "lemma", "chaninv", "stable", "cover", "static", "typeinv", "reach", "loopframe", "iter":
+	// only what a contract clause or declaration asks for: obligations derived from the code's
+	// shape (frames per touched key, send/spawn sites, sweeps) come and go with harmless edits
+	case "ensures", "inv", "variant", "lemma", "static", "typeinv", "loopframe", "iter", "refine", "clsinv":
 		return true
 	}
 	return false
@@ -355,6 +358,29 @@ func RunCheck(opt Options) int {
 	for fn, ct := range P.Contracts {
 		if hasProp(ct.Props, opt.Prop) && !ct.Trusted {
 			fns = append(fns, fn)
+		}
+	}
+	// every function of the module used as a value of a func type whose contract lists the property
+	{
+		have := map[*ssa.Function]bool{}
+		for _, fn := range fns {
+			have[fn] = true
+		}
+		var ftNames []string
+		for n := range P.FuncType {
+			ftNames = append(ftNames, n)
+		}
+		sort.Strings(ftNames)
+		for _, n := range ftNames {
+			if !hasProp(P.FuncType[n].Props, opt.Prop) {
+				continue
+			}
+			for _, impl := range P.FuncTypeImpls[n] {
+				if ct := P.Contracts[impl]; ct != nil && !ct.Trusted && !have[impl] {
+					have[impl] = true
+					fns = append(fns, impl)
+				}
+			}
 		}
 	}
 	// functions that allocate a type whose invariant belongs to this property
@@ -680,6 +706,49 @@ func RunCheck(opt Options) int {
 		"vacuous":                  vacuous,
 		"samples":                  samples,
 		"ledger_obligations":       len(ledger),
+	}
+	// blocks that lie only on paths whose assumptions are unsatisfiable: dead code, or an
+	// inconsistency of the model (reported, so that a vacuous stretch of a function is visible)
+	{
+		blockRe := regexp.MustCompile(`(\d+)→(\d+)`)
+		seen := map[string]map[string]bool{}
+		live := map[string]map[string]bool{}
+		for _, ob := range obs {
+			if ob.Kind != "ensures" && ob.Kind != "iter" && ob.Kind != "inv" && ob.Kind != "reach" {
+				continue
+			}
+			isLive := ob.Live
+			if ob.Kind == "reach" {
+				isLive = ob.Result.Status == "unsat" // (flipped: the guard passed, the path is feasible)
+			}
+			for _, m := range blockRe.FindAllStringSubmatch(ob.Trail, -1) {
+				for _, b := range m[1:] {
+					if seen[ob.Fn] == nil {
+						seen[ob.Fn] = map[string]bool{}
+						live[ob.Fn] = map[string]bool{}
+					}
+					seen[ob.Fn][b] = true
+					if isLive {
+						live[ob.Fn][b] = true
+					}
+				}
+			}
+		}
+		var dead []string
+		for fn, bs := range seen {
+			for b := range bs {
+				if !live[fn][b] {
+					dead = append(dead, fn+": block "+b)
+				}
+			}
+		}
+		sort.Strings(dead)
+		ev.Coverage["blocks_only_on_infeasible_paths"] = dead
+		if opt.Verbose {
+			for _, d := range dead {
+				fmt.Printf("  never-live %s\n", d)
+			}
+		}
 	}
 	if opt.Tier == "thorough" {
 		cross, disagree := 0, 0
